@@ -88,8 +88,9 @@ func (s *service) Handle(ctx context.Context, conn net.Conn) error {
 
 	body := make([]byte, 1024)
 
-	n, err := req.Body.Read(body)
-	if err == io.EOF {
+	// a single Read returns whatever has arrived so far: fill the buffer
+	n, err := io.ReadFull(req.Body, body)
+	if err == io.EOF || err == io.ErrUnexpectedEOF {
 	} else if err != nil {
 		return err
 	}
